@@ -650,6 +650,79 @@ def shake_rules(chk):
     chk.floor('shake cases', n, 10)
 
 
+def hkdf_expand(chk):
+    """HKDF-Expand (RFC 5869 2.3): T(1) = HMAC(PRK, info | 0x01), T(i) = HMAC(PRK, T(i-1) | info | i), at most 255 blocks.  Decided by
+    partial evaluation of one turn of br_hkdf_produce() at a block boundary (ptr == dig_len) with the block counter pinned: the
+    sequence of HMAC calls, their operands (previous block only from the second block on; the counter byte is the new block number)
+    and the stop after block 255."""
+    from .. import oblig, fold
+    from ..oblig import LocalLoad
+    R = 'hkdf-expand-block'
+    src, fn = 'src/kdf/hkdf.c', 'br_hkdf_produce'
+    U = oblig.funit(src)
+    if fn not in U.funcs:
+        raise AnalysisBroken('%s vanished' % fn)
+    F = U.func(fn)
+    L = irf.Layouts(U.unit)
+    f = {k: L.field('br_hkdf_context', k) for k in ('ptr', 'dig_len', 'chunk_num', 'buf')}
+    if None in f.values():
+        raise AnalysisBroken('br_hkdf_context layout changed')
+    NI = ('br_hmac_init', 'br_hmac_update', 'br_hmac_out')
+
+    def first(k):
+        ls = U.field_loads(fn, 0, f[k][0], f[k][1])
+        if not ls:
+            raise AnalysisBroken('%s: no load of %s' % (fn, k))
+        return min(ls, key=lambda i: F.order[i['id']])
+    xl = LocalLoad('x').sites(U, fn)
+    DL = 32
+    n = 0
+    for c in (0, 1, 7, 254, 255):
+        hy = [dict(kind='pin', n=first('ptr')['n'], value=DL), dict(kind='pin', n=first('chunk_num')['n'], value=c)]
+        hy += [dict(kind='pin', n=l['n'], value=DL) for l in U.field_loads(fn, 0, f['dig_len'][0], f['dig_len'][1])]
+        hy += [dict(kind='pin', n=l['n'], value=(c + 1) & 255) for _, l in xl]
+        Fo = U.optimise(fn, hy, NI)
+        seq = []
+        xval = {}
+        for i in sorted(fold._reach_insts(Fo), key=lambda i: i['id']):
+            if i['op'] == 'store':
+                b, o = Fo.addr_of(i['ops'][1])
+                if b['k'] == 'i' and Fo.insts[b['v']]['op'] == 'alloca' and i['ops'][0]['k'] == 'c':
+                    xval[b['v']] = i['ops'][0]['v'] & 0xFF
+            if i['op'] != 'call' or i.get('callee') not in NI:
+                continue
+            cal = i['callee']
+            if cal == 'br_hmac_update':
+                b, o = Fo.addr_of(i['ops'][1])
+                ln = i['ops'][2]
+                if b == {'k': 'a', 'v': 0} and o == f['buf'][0]:
+                    seq.append(('update', 'previous block', ln.get('v') if ln['k'] == 'c' else '?'))
+                elif b == {'k': 'a', 'v': 1} and ln == {'k': 'a', 'v': 2}:
+                    seq.append(('update', 'info', 'info_len'))
+                elif b['k'] == 'i' and Fo.insts[b['v']]['op'] == 'alloca' and ln['k'] == 'c':
+                    seq.append(('update', 'counter byte %s' % xval.get(b['v'], '?'), ln['v']))
+                else:
+                    seq.append(('update', '?', '?'))
+            elif cal == 'br_hmac_out':
+                b, o = Fo.addr_of(i['ops'][1])
+                seq.append(('out', 'buf' if (b == {'k': 'a', 'v': 0} and o == f['buf'][0]) else '?'))
+            else:
+                seq.append(('init',))
+        if c == 255:
+            want = []
+        else:
+            want = [('init',)] + ([('update', 'previous block', DL)] if c >= 1 else []) + \
+                [('update', 'info', 'info_len'), ('update', 'counter byte %d' % (c + 1), 1), ('out', 'buf')]
+        n += 1
+        inst = '%s: block %d = HMAC(PRK, %sinfo | %#04x)' % (fn, c + 1, 'T(%d) | ' % c if c >= 1 else '', c + 1) if c < 255 else \
+            '%s: no block beyond the 255th' % fn
+        if seq == want:
+            chk.ok(R, inst, src)
+        else:
+            chk.violation(R, inst, src, 'the HMAC calls are %s, RFC 5869 gives %s' % (seq, want), key='%s %d' % (R, c))
+    chk.floor('hkdf blocks', n, 5)
+
+
 def run(tier):
     chk = report.Check('C13', tier,
                        'Constant tables and class descriptors of the hash functions compared with values generated from the standards '
@@ -796,6 +869,7 @@ def run(tier):
     drbg_rules(chk)
     aesctr_drbg_chunking(chk)
     shake_rules(chk)
+    hkdf_expand(chk)
     chk.floor('tables', sum(1 for o in chk.obls if o['rule'] == 'hash-constants'), 15)
     from .. import lints
     lints.length_is_boolean(chk, ['src/hash/', 'src/mac/', 'src/kdf/', 'src/rand/'])
